@@ -52,7 +52,7 @@ class CsvGrid(Harness):
         self.name = name
         self.maxlen = maxlen
         self.doc = 'writer::csv::write_writer on a real workbook (2x2 area, each cell present or missing, texts of 0..%d symbolic characters from a delimiter-rich alphabet, trim on/off, wrap character none / double quote / apostrophe): an RFC 4180 parser with the same delimiter and quote recovers exactly the grid' % self.maxlen
-        self.bounds = {'area': '2 x 2', 'present_cells': 'every subset of the 2x2 area with at most %d cells' % maxcells, 'text_chars': [0, self.maxlen], 'alphabet': [chr(c) for c in ALPHABET], 'do_trim': [False, True], 'wrap': ['', '"', "'"], 'encoding': 'UTF-8 only'}
+        self.bounds = {'area': '2 x 2', 'present_cells': 'every subset of the 2x2 area with at most %d cells' % maxcells, 'text_chars': [0, self.maxlen], 'alphabet': [chr(c) for c in ALPHABET], 'removed_before_export': 'optionally one of the written cells', 'do_trim': [False, True], 'wrap': ['', '"', "'"], 'encoding': 'UTF-8 only'}
         self.maxcells = maxcells
     def setup(self, it): iomodel.install(it)
     def run(self, it, ctx, res):
@@ -66,8 +66,12 @@ class CsvGrid(Harness):
                 for ch in cs: ctx.define(z3.Or(*[ch == a for a in ALPHABET]))
                 cells[(c, r)] = cs
         if not cells: return 'empty'
+        # a cell may be written and removed again before the export: the exported area follows the cells that are left
+        removed = None
+        if len(cells) >= 2 and ctx.branch(ctx.sym_bool('remove_one')):
+            keys = sorted(cells); ri = ctx.sym_int('removed', 0, len(keys) - 1); removed = keys[next(i for i in range(len(keys)) if ctx.branch(ri == i))]
         sink = Collect()
-        info = {'trim': trim, 'wrap': wrap, 'cells': {('%d,%d' % k): len(v) for k, v in cells.items()}}
+        info = {'trim': trim, 'wrap': wrap, 'cells': {('%d,%d' % k): len(v) for k, v in cells.items()}, 'removed': removed}
         it.stubs = {'std::string::String::into_bytes': lambda it_, s: TextBytes(deref_all(s).chars)}
         extra = [(re_compile(r'<(&mut )*VerifCollect as std::io::Write>::write_all'), (lambda it_, w, data: (deref_all(w).chunks.append(deref_all(data)), OK([]))[1]), False)]
         it.models = extra + it.models
@@ -77,6 +81,9 @@ class CsvGrid(Harness):
             for (c, r), cs in cells.items():
                 cell = it.call('structs::worksheet::Worksheet::get_cell_mut::<(u32, u32)>', [ws, [c, r]])
                 it.call('structs::cell::Cell::set_value_string::<&str>', [cell, sref(SStr(cs))])
+            if removed is not None:
+                it.call('structs::worksheet::Worksheet::remove_cell::<(u32, u32)>', [ws, [removed[0], removed[1]]])
+                del cells[removed]
             opt = Box_(it.call('<structs::csv_writer_option::CsvWriterOption as std::default::Default>::default', []))
             it.call('structs::csv_writer_option::CsvWriterOption::set_do_trim', [Ref(opt), trim])
             it.call('structs::csv_writer_option::CsvWriterOption::set_wrap_with_char::<&str>', [Ref(opt), sref(wrap)])
@@ -108,12 +115,15 @@ class CsvGrid(Harness):
         m = v['model']; cells = {}
         for (c, r) in ((1, 1), (2, 1), (1, 2), (2, 2)):
             if m.get('present_%d_%d' % (c, r)): cells['%d,%d' % (c, r)] = ''.join(chr(m['t_%d_%d_%d' % (c, r, k)]) for k in range(m.get('len_%d_%d' % (c, r), 0)))
-        c = {'cells': cells, 'do_trim': bool(m['do_trim']), 'wrap': ['', '"', "'"][m['wrap']], 'oblig': v['oblig']}
+        removed = None
+        if m.get('remove_one') and len(cells) >= 2: removed = sorted(cells, key=lambda k: tuple(int(x) for x in k.split(',')))[m.get('removed', 0)]
+        c = {'cells': cells, 'removed': removed, 'do_trim': bool(m['do_trim']), 'wrap': ['', '"', "'"][m['wrap']], 'oblig': v['oblig']}
         c['show'] = dict(c); return c
     def confirm(self, case, profile):
         import csv, io
         spec = ';'.join('%s=%s' % (k, v.encode('utf-8').hex()) for k, v in sorted(case['cells'].items()))
-        r = native.run_cases([['csv_export', spec, case['do_trim'], case['wrap']]], profile)[0]
+        r = native.run_cases([['csv_export', spec, case['do_trim'], case['wrap'], case.get('removed') or '']], profile)[0]
+        if case.get('removed'): case = dict(case, cells={k: v for k, v in case['cells'].items() if k != case['removed']})
         if r[0] != 'ok': return True, 'csv export of %r -> %r' % (case['show'], r)
         text = bytes.fromhex(r[1][0]).decode('utf-8', 'replace')
         maxc = max(int(k.split(',')[0]) for k in case['cells']); maxr = max(int(k.split(',')[1]) for k in case['cells'])
